@@ -244,4 +244,32 @@ func runC18(c *explore.Ctx) {
 		s.WallS = time.Since(t0).Seconds()
 	}
 	registrySub(c)
+	// documents with many errors: what one rule reports must not depend on how much the others report
+	s = c.Sub("large", "documents of 30, 60, 120 and 250 selections with two or three errors each (unknown argument, missing required argument, wrong value, unknown field, misplaced directive) × the same rule sets (with pairs and leave-one-out)", "as above", "every document")
+	if s != nil && c.Shard == 0 {
+		t0 := time.Now()
+		for _, d := range c18LargeDocs() {
+			s.States++
+			c18Doc(c, s, kitDoc{Schema: 0, Doc: d}, true)
+		}
+		s.WallS = time.Since(t0).Seconds()
+	}
+}
+
+// c18LargeDocs: documents whose error lists run into the hundreds.
+func c18LargeDocs() []string {
+	var out []string
+	for _, n := range []int{30, 60, 120, 250} {
+		var a, b strings.Builder
+		a.WriteString("query Q {")
+		b.WriteString("query Q($u: Int) {")
+		for i := 0; i < n; i++ {
+			fmt.Fprintf(&a, " a%d: req(aa: %d)", i, i)
+			fmt.Fprintf(&b, " b%d: pet(kind: %d) { nope%d id { x } } c%d: id @nope @once @once", i, i, i, i)
+		}
+		a.WriteString(" }")
+		b.WriteString(" }")
+		out = append(out, a.String(), b.String())
+	}
+	return out
 }
